@@ -1092,7 +1092,7 @@ class Interp:
             return Builtin("file." + name, lambda *a, _n=name: self._file_op(o, _n, *a))
         if isinstance(o, Builtin) and o.name == "int" and name == "from_bytes":
             return Builtin("int.from_bytes", self._from_bytes)
-        if isinstance(o, (SeqList, ArrList, AbsList)):
+        if isinstance(o, (SeqList, ArrList, AbsList, GhostDict)):
             return NativeMethod(o, name)
         if o is None or isinstance(o, (str, list, dict, tuple, int, SStr, SymInt, bytes, bytearray, bool, float, _SymBytes, set, frozenset)):
             if isinstance(o, _SymBytes) or hasattr(self._proto(o), name):
@@ -1587,7 +1587,7 @@ class Interp:
 
     # ------------------------------------------------------------------ native / symbolic methods
     def call_native_method(self, recv, name, args, kwargs):
-        if isinstance(recv, (SeqList, ArrList, AbsList)):
+        if isinstance(recv, (SeqList, ArrList, AbsList, GhostDict)):
             return recv.method(self, name, args, kwargs)
         if isinstance(recv, _SymBytes):
             if name == "decode":
